@@ -311,11 +311,11 @@ func propC10(c *Check) {
 	c.RequireFact(ah, "R2", "timeout-not-expired", patLE(to, "0")+"|"+lit(EQ("0", to))+"|"+patLE("Context.BlockHeight()", to), tn, "next()")
 	c.RequireFact(ah, "R2", "msgs-readable", lit("(Tx.GetMsgsV2($2)#1 == nil)"), tn, "next()")
 	c.RequireFact(ah, "R2", "proposer-readable", lit("(RelayerKeeper.GetCurrentProposer()#1 == nil)"), tn, "next()")
-	c.RequireFact(ah, "R2", "all-messages-visited", lit("(len(Tx.GetMsgsV2($2)#0) <= (1 + φ{-1|@}))"), tn, "next()")
+	c.RequireFact(ah, "R2", "all-messages-visited", lit("(len(Tx.GetMsgsV2($2)#0) <= φ{(1 + @)|0})"), tn, "next()")
 
 	// mode split: per message, from the ExecMode() call to the next iteration / next(): must pass through the admission of that mode
 	modeCalls := p.FindCalls(ah, `^Context\.ExecMode\(`)
-	name := "MessageDescriptor.FullName(Message.Descriptor(ProtoMessage.ProtoReflect(Tx.GetMsgsV2($2)#0[(1 + φ{-1|@})])))"
+	name := "MessageDescriptor.FullName(Message.Descriptor(ProtoMessage.ProtoReflect(Tx.GetMsgsV2($2)#0[φ{(1 + @)|0}])))"
 	rto := p.Fn("app.GoatGuardHandler.AnteHandle$1")
 	if len(modeCalls) != 1 || rto == nil {
 		c.Violated("R2", "mode-split @ "+FuncKey(ah), p.Pos(ah.Pos()), "per-message ExecMode() dispatch or relayerTxOnly closure not found reason=not-established")
